@@ -510,6 +510,9 @@ def cond_ops(shape):
     ops += [("addgs", [list(k) + ["T", "x"] for k in ks[:3]]), ("removegs", [list(k) + ["T", "x"] for k in ks[:3]])]
     ops += [("load",), ("build",), ("clear",), ("save",), ("autobuild", False), ("autobuild", True)]
     ops += [("removefg", 0, ["alice"]), ("removefg", 1, ["staff"])]
+    # a reload that is REJECTED while the conditional links are being built (a good new line, then a too short one in the
+    # store): both enforcers must raise and keep what they had (policy, links, decisions)
+    ops += [("rejectload", list(ks[0]) + ["T", "x"]), ("rejectload", list(ks[-1]) + ["T", "x"])]
     return ops
 
 
@@ -546,6 +549,17 @@ def _cond_history(args):
             return e.add_named_link_condition_func("g", op[1][0], op[1][1], _cond_flag)
         if k == "load":
             return e.load_policy()
+        if k == "rejectload":
+            saved = {kk: [list(x) for x in v] for kk, v in ad.store.items()}
+            ad.store["g"] = [list(op[1])] + [list(x) for x in ad.store.get("g", [])] + [["zz"]]
+            try:
+                r = e.load_policy()
+                if asyncio.iscoroutine(r):
+                    r = ec.run_async(r)
+                return r
+            finally:
+                ad.store.clear()
+                ad.store.update(saved)
         if k == "build":
             return e.build_role_links()
         if k == "clear":
